@@ -13,6 +13,7 @@ import Driver.Hardlink
 import Driver.Verify
 import Driver.Filter
 import Driver.Bisync
+import Driver.Watch
 
 namespace Driver
 
@@ -30,6 +31,7 @@ def dispatch (toks : List String) : String :=
       else if area == "verify" then Driver.Verify.handle toks
       else if area == "glob" || area == "filter" then Driver.Filter.handle toks
       else if area == "bisync" then Driver.Bisync.handle toks
+      else if area == "watch" then Driver.Watch.handle toks
       else none
     r.getD "bad-op"
 
